@@ -21,20 +21,29 @@
 EXTENDS Integers, FiniteSets, Sequences, TLC
 
 CONSTANTS UnifyNeedsPointers,   \* deviation D12: unify(keep_chunked=FALSE) fails once the pointers are gone
-          CopyDropsFields       \* deviation D13: GroupBy(gb) copies two of the fields only
+          CopyDropsFields,      \* deviation D13: GroupBy(gb) copies two of the fields only
+          MemoByIdentity        \* deviation: something computed from a call's mask / values is remembered under the
+                                \* argument's identity and served again although the caller refilled the buffer
 
 Ops == {"reduce", "transform", "groups", "select", "cumroll", "apply", "ema", "size", "keycount", "copy", "classcall"}
 Caches == {"ikey_count", "key_count", "sort_indexer", "groups", "argsort", "lengths"}
 
-VARIABLES rep, cache, broken, last
+(* The caller may pass the SAME mask / values buffer to several calls and rewrite it in place in between (the usual     *)
+(* way to loop over "everything but group k"): bufver counts the rewrites (environment action Refill).  The answer of a  *)
+(* call is a function of the buffer's content at call time, never of its identity: memo / stale model the deviation.     *)
+MaxRefills == 2
+MaskedOps == {"reduce", "size", "transform", "cumroll", "apply", "ema"}
+VARIABLES rep, cache, broken, last, bufver, memo, stale
 (* broken: the object lacks fields (deviation CopyDropsFields) -- every later call fails *)
 (* last  : the operation that led here (history variable for trace export)              *)
-ovars == <<rep, cache, broken, last>>
+(* memo  : buffer version remembered by identity (-1: nothing), stale: some call answered from an outdated version *)
+ovars == <<rep, cache, broken, last, bufver, memo, stale>>
 
 Init == /\ rep \in {"flat", "local"}
         /\ cache = {}
         /\ broken = FALSE
         /\ last = "init"
+        /\ bufver = 0 /\ memo = -1 /\ stale = FALSE
 
 UnifyKeep(r) == IF r = "local" THEN "glob" ELSE r          \* _unify_group_key_chunks(keep_chunked=True)
 UnifyFlat(r) == "flat"                                        \* _unify_group_key_chunks(keep_chunked=False)
@@ -43,6 +52,12 @@ CanUnifyFlat(r) == ~(UnifyNeedsPointers /\ r = "glob")
 Do(op) ==
   /\ ~broken
   /\ last' = op
+  /\ UNCHANGED bufver
+  /\ IF MemoByIdentity /\ op \in MaskedOps
+     THEN /\ memo' = (IF memo = -1 THEN bufver ELSE memo)
+          /\ stale' = (stale \/ (memo # -1 /\ memo # bufver))
+     ELSE IF op = "copy" THEN memo' = -1 /\ UNCHANGED stale
+     ELSE UNCHANGED <<memo, stale>>
   /\ CASE op = "reduce" ->
             /\ rep' = rep /\ cache' = cache \cup {"argsort", "ikey_count", "key_count", "lengths"} /\ UNCHANGED broken
        [] op \in {"size", "keycount"} ->
@@ -67,10 +82,16 @@ Do(op) ==
        [] op = "classcall" ->     \* GroupBy.<method>(raw keys, ...): a new object, this one untouched
             /\ UNCHANGED <<rep, cache, broken>>
 
-Next == \E op \in Ops : Do(op)
+(* the environment: the caller rewrites its argument buffers in place *)
+Refill == /\ ~broken /\ bufver < MaxRefills
+          /\ bufver' = bufver + 1 /\ last' = "refill"
+          /\ UNCHANGED <<rep, cache, broken, memo, stale>>
+Next == (\E op \in Ops : Do(op)) \/ Refill
 Spec == Init /\ [][Next]_ovars
 
-TypeOK == rep \in {"flat", "local", "glob"} /\ cache \subseteq Caches /\ broken \in BOOLEAN
+TypeOK == rep \in {"flat", "local", "glob"} /\ cache \subseteq Caches /\ broken \in BOOLEAN /\ bufver \in 0..MaxRefills
+(* every call answers for the buffer content it was given *)
+AnswersCurrent == ~stale
 (* no history makes a call fail *)
 AlwaysEnabled == \A op \in Ops : ENABLED Do(op)
 (* the pointer tables exist exactly in the "local" representation; nothing ever goes back to it *)
